@@ -24,6 +24,14 @@ CHECKS = {
         note="Trusted: ideal AEAD model (a forged frame is rejected by the real primitive), rope proxies (model-based differential "
              "against the real library with real ChaCha20-Poly1305 on sampled paths), z3. HTTP layer stubbed (C07).",
         design="DESIGN.md section 5 C05"),
+    "C07": dict(
+        text="The real HttpResponse.parse and the data_received feed loop run on windows with solver-variable bounds over concrete "
+             "template streams (fixed core + seeded random; HTTP/EVENT, content-length, chunked, body-less, tricky bodies): every "
+             "placement of 2 (thorough also 3) cut points is covered per stream and z3 discharges 'messages == sent, in order, "
+             "nothing left over'. Message content is enumerated, segmentation is decided symbolically.",
+        note="Trusted: rope proxies incl. find() as a case split over CRLF occurrences (model-based differential vs the real parser "
+             "on sampled paths), z3. Futures/event sink are recorders.",
+        design="DESIGN.md section 5 C07"),
 }
 
 NOT_APPLICABLE = {
